@@ -261,7 +261,7 @@ def make_case(rng, family=None):
         if spec is None:
             return None
     else:
-        spec, steady, meta = F.family_G(rng)
+        spec, steady, meta = F.family_G(rng, measurement=bool(rng.random() < 0.5))
     T = int(rng.integers(1, 25))
     tnames = [q["name"] for q in spec["tvars"]]
     shocks = [q["name"] for q in spec["tshocks"]]
